@@ -87,6 +87,9 @@ def schedule(rng, nthr, n, style):
         out.append("".join(rng.choice(ids[1:]) for _ in range(rng.randint(5, 40))))
     while sum(len(x) for x in out) < n:
         r = rng.random()
+        if style == "uniform":
+            out.append("".join(rng.choice(ids) for _ in range(16)))
+            continue
         if style == "pingpong" or r < 0.25:
             a, b = rng.choice(ids), rng.choice(ids)
             out.append((a + b) * rng.randint(1, 6))
@@ -203,6 +206,35 @@ def gen_cont(rng):
     if rng.random() < 0.3:
         sc.helper(rng.choice(HELPER_ENDINGS))
     sc.sched = schedule(rng, m + 1, rng.choice([0, 40, 120, 300]), rng.choice(STYLES))
+    return sc.text()
+
+
+def gen_needed(rng):
+    """thread_needed: a continuation submitted from a work function while started < max posts the owner's
+    thread_needed event; the owner meanwhile starts threads itself (set-up submissions after a few yields), so the handler
+    runs with the pool already full; many items whose work functions yield several times, so that as many work
+    functions as there are pool threads overlap"""
+    m = rng.choice([1, 2, 2, 2, 3])
+    sc = Scen(rng, m)
+    first = sc.item()
+    sc.setup.append("ws0.%d" % first)
+    cont = sc.item()
+    sc.add(("w", first), ["wS0.0.%d" % cont] + ["y"] * rng.randint(2, 5))
+    sc.add(("w", cont), ["y"] * rng.randint(3, 5))
+    sc.setup += ["y"] * rng.randint(1, 4)
+    for _ in range(rng.randint(3, 6)):
+        i = sc.item()
+        if i is None:
+            break
+        sc.setup.append("ws0.%d" % i)
+        sc.add(("w", i), ["y"] * rng.randint(3, 5))
+        if rng.random() < 0.2:
+            sc.setup.append("y")
+    if rng.random() < 0.3:
+        sc.timer(rng.choice([10 * S, 20 * S, 30 * S]), ["wp0"])
+    sc.m = 200
+    # long schedules: with an exhausted schedule the running thread keeps the baton and the work functions do not overlap
+    sc.sched = schedule(rng, m + 2, rng.choice([400, 600, 900]), rng.choice(["uniform", "uniform", "random", "pingpong"]))
     return sc.text()
 
 
@@ -476,6 +508,11 @@ class _WorkCheck(MTCheck):
         "distinguish a local (NULL pool) work function that runs inside the submit call from one that runs from the task right after it",
     ]
 
+    mon_mode = "mon"
+
+    def monitor_cmd(self, ctx):
+        return [os.path.join(self.d, "mt_model_run"), self.mon_mode]
+
     def mix(self, ctx):
         raise NotImplementedError
 
@@ -490,6 +527,9 @@ class _WorkCheck(MTCheck):
             for _ in range(n):
                 cases.append(fn(rng))
         return cases
+
+    def signature(self, case, why):
+        return self.pid.lower() + ":" + ("crash" if "CRASH" in why or "sanitizer" in why or "crashed" in why else "monitor")
 
     def distribution(self, cases):
         d = {"cases": len(cases)}
@@ -562,10 +602,13 @@ class _WorkCheck(MTCheck):
 
 class C12(_WorkCheck):
     pid = "C12"
+    mon_mode = "mon12"
     rule = ("cases = seeded scenarios of one pool with max_threads 1-4 on the real iv_work.c: (a) bursts of 1-8 submissions from the "
             "owner, resubmission from completions, later submissions from owner timers at 0 / 1 ns / 5 / 10 / 10+1ns / 15 / 20 / 30 s "
             "(the workers' idle timers expire 10 s after they went idle: equal virtual deadlines race under the schedule); (b) chains of "
-            "continuations submitted from work functions next to plain items; (c) idle-timer races (submissions and puts exactly at the "
+            "continuations submitted from work functions next to plain items, and continuations posting thread_needed while the owner "
+            "fills the pool, with many long (yielding) work functions under long uniform schedules so that max_threads of them overlap; "
+            "(c) idle-timer races (submissions and puts exactly at the "
             "idle expiry); (d) NULL-pool items mixed with pool items, submitted from set-up, local work functions, completions, timers; "
             "schedules Z: random, bursty, ping-pong, owner first (threads still starting when more work arrives), workers first.  "
             "non-trivial = another thread ran while some thread held the pool lock, or >= 2 pool threads ran work functions, or an idle "
@@ -580,8 +623,8 @@ class C12(_WorkCheck):
 
     def mix(self, ctx):
         q = ctx.tier == "quick"
-        return [(gen_burst, 260 if q else 12000), (gen_cont, 140 if q else 6000), (gen_idle_race, 160 if q else 8000),
-                (gen_local, 90 if q else 4000), (gen_put_at, 50 if q else 2000)]
+        return [(gen_burst, 230 if q else 12000), (gen_cont, 110 if q else 6000), (gen_needed, 120 if q else 6000),
+                (gen_idle_race, 140 if q else 8000), (gen_local, 80 if q else 4000), (gen_put_at, 40 if q else 2000)]
 
     def nontrivial(self, case, log):
         f = log_features(log)
@@ -590,6 +633,7 @@ class C12(_WorkCheck):
 
 class C13(_WorkCheck):
     pid = "C13"
+    mon_mode = "mon13"
     rule = ("cases = seeded scenarios with iv_work_pool_put at a chosen point: first thing after create, between set-up submissions, "
             "from a completion (first / second run of a resubmitted item), from a local work function, from owner timers at 0 / 5 / 10 / "
             "10+1ns / 11 / 20 / 30 s (around the workers' idle expiry), with submissions before and after, max_threads 1-4; helper "
